@@ -73,7 +73,7 @@ def run(ctx):
     from dtaidistance.subsequence.localconcurrences import LocalConcurrences
     warnings.simplefilter("ignore")
     rng = ctx.rng
-    N = 160 if ctx.quick else 3500
+    N = ctx.scale(900, 12000)
     for it in range(N):
         r, c = rng.randint(2, 14), rng.randint(2, 14)
         selfcmp = rng.random() < 0.35
